@@ -76,12 +76,13 @@ impl P2PKHAddress {
     }
 
     pub(crate) fn from_string_impl(address_string: &str) -> Result<P2PKHAddress, BSVErrors> {
-        if address_string.len() < 33 {
-            return Err(BSVErrors::P2PKHAddress("Too Short! invalid address"));
-        }
-
         let decoded = bs58::decode(address_string);
         let decoded_bytes = decoded.into_vec()?;
+
+        // 1 byte prefix + 20 byte hash + 4 byte checksum
+        if decoded_bytes.len() != 25 {
+            return Err(BSVErrors::P2PKHAddress("Invalid length! invalid address"));
+        }
 
         let address_bytes: Vec<u8> = decoded_bytes[..decoded_bytes.len() - 4].to_vec();
         let address_checksum = decoded_bytes[decoded_bytes.len() - 4..].to_vec();
